@@ -1,0 +1,25 @@
+//go:build verif
+
+package directive
+
+import "github.com/jsightapi/jsight-schema-go-library/bytes"
+
+func VerifUnescapeParameter(b []byte) []byte { return unescapeParameter(bytes.Bytes(b)) }
+
+// VerifKeywordBegin returns the file name and byte index of the directive keyword.
+func (d Directive) VerifKeywordBegin() (string, uint) {
+	name := ""
+	if d.keywordCoords.file != nil {
+		name = d.keywordCoords.file.Name()
+	}
+	return name, uint(d.keywordCoords.begin)
+}
+
+// VerifNamedParameters returns a copy of the named parameters.
+func (d Directive) VerifNamedParameters() map[string]string {
+	res := make(map[string]string, len(d.namedParameters))
+	for k, v := range d.namedParameters {
+		res[k] = v
+	}
+	return res
+}
